@@ -9,7 +9,7 @@ SHARDS = {"quick": 8, "thorough": 16}
 TIMEOUT = {"quick": 900, "thorough": 3000}
 MIN_EVALUATIONS = {"quick": 12000, "thorough": 12000}  # fewer oracle evaluations than this means the workload collapsed: inconclusive
 RULE = ("read()/write() calls of 1-40 requests mixing VALID requests (judged as in C01/C02) with INVALID ones of exactly the classes the "
-        "statement lists {unknown tag, unknown member, member of an atomic, index out of range, count out of range, unencodable value, "
+        "statement lists {unknown tag, unknown member (named or numeric), member of an atomic, index out of range, count out of range, unencodable value, "
         "too-short value list, misaligned BOOL-array write, controller error status forced by the target} at every position class (first/"
         "last/all/alternating/random), with sizes that spread the requests over several multi-service packets, fragmented transfers and "
         "bit-write groups, on every controller configuration; oracle: arity/shape (single Tag iff n=1), i-th Tag answers the i-th request "
@@ -17,7 +17,7 @@ RULE = ("read()/write() calls of 1-40 requests mixing VALID requests (judged as 
         "bool(Tag) == (value is not None and error is None). A separate robustness census of undocumented shapes is tabulated, never judged. "
         "distinct = (op, n, invalid class, position class, config, packets used) evaluated")
 ASSUMPTIONS = [
-    "request shapes the documentation leaves undefined (bit of a REAL/structure, {0}, {n} or index on a scalar, negative index, whitespace, bit >= width) are outside the judged calls",
+    "request shapes the documentation leaves undefined (bit of a REAL, {0}, {n} or index on a scalar, negative index, whitespace, bit >= width) are outside the judged calls",
     "a failed request's Tag.tag may or may not keep the {n} suffix (the statement constrains the name of successful results only)",
 ]
 ANCHORS = [
@@ -36,7 +36,7 @@ class Bad:
 def gen_invalid(sc, rng, for_write):
     prj = sc.prj
     tags = prj.user_tags()
-    classes = ["unknown-tag", "unknown-member", "member-of-atomic", "index-out-of-range", "count-out-of-range", "forced-status"]
+    classes = ["unknown-tag", "unknown-member", "member-of-atomic", "index-out-of-range", "count-out-of-range", "forced-status", "numeric-member-of-structure"]
     if for_write:
         classes += ["unencodable-value", "unencodable-value", "too-short-list", "misaligned-bool-array", "bit-out-of-range"]
     for _ in range(50):
@@ -50,6 +50,9 @@ def gen_invalid(sc, rng, for_write):
         idx0 = "[" + ",".join("0" for _ in t.dims) + "]" if t.dims else ""
         if c == "unknown-member" and t.dtype.kind == "struct":
             return Bad(f"{t.full_name}{idx0}.NoSuchMember", c, 1)
+        if c == "numeric-member-of-structure" and t.dtype.kind in ("struct", "string"):
+            # a structure has no member (or bit) called "3": an unknown member like any other
+            return Bad(f"{t.full_name}{idx0}.{rng.choice([0, 1, 3, 7, 31, 32, 100])}", c, rng.choice([True, False, 1, 0]))
         if c == "member-of-atomic" and t.dtype.kind == "atomic" and t.dtype.name not in ("DWORD",):
             return Bad(f"{t.full_name}{idx0}.member", c, 1)
         if c == "index-out-of-range" and t.dims and t.dtype.name != "DWORD":
